@@ -150,27 +150,27 @@ macro_rules! h {
     };
 }
 
-//@ obl: id=U12.mania.protocol.n0 harness=u12_mania_protocol_n0 props=C15,C02 tier=quick kind=bounded
+//@ obl: id=U12.mania.protocol.n0 harness=u12_mania_protocol_n0 props=C15,C02,C03 tier=quick kind=bounded
 //@ fns: ManiaGradualDifficulty::next, ManiaGradualDifficulty::nth, ManiaGradualDifficulty::len, ManiaGradualDifficulty::size_hint, increment_combo, increment_combo_raw
 //@ bound: bounded: N = 0 objects; idx and nth argument k range over all usize
 //@ clause: C15 (a) len()==remaining, size_hint()==(remaining,Some(remaining)); (b) next() Some iff remaining>0, then idx'=idx+1, else unchanged; (c) nth(k) Some iff k<remaining, consumes min(k+1,remaining); (d) invariant preserved, no overflow / index panic; the i-th value reports n_objects == i, and combo / hold-note counts of exactly the first i objects
 h!(u12_mania_protocol_n0, step_protocol, 0);
-//@ obl: id=U12.mania.protocol.n1 harness=u12_mania_protocol_n1 props=C15,C02 tier=quick kind=bounded
+//@ obl: id=U12.mania.protocol.n1 harness=u12_mania_protocol_n1 props=C15,C02,C03 tier=quick kind=bounded
 //@ fns: ManiaGradualDifficulty::next, ManiaGradualDifficulty::nth, ManiaGradualDifficulty::len, ManiaGradualDifficulty::size_hint
 //@ bound: bounded: N = 1; idx, k all usize
 //@ clause: as U12.mania.protocol.n0
 h!(u12_mania_protocol_n1, step_protocol, 1);
-//@ obl: id=U12.mania.protocol.n2 harness=u12_mania_protocol_n2 props=C15,C02 tier=quick kind=bounded
+//@ obl: id=U12.mania.protocol.n2 harness=u12_mania_protocol_n2 props=C15,C02,C03 tier=quick kind=bounded
 //@ fns: ManiaGradualDifficulty::next, ManiaGradualDifficulty::nth, ManiaGradualDifficulty::len, ManiaGradualDifficulty::size_hint
 //@ bound: bounded: N = 2; idx, k all usize
 //@ clause: as U12.mania.protocol.n0
 h!(u12_mania_protocol_n2, step_protocol, 2);
-//@ obl: id=U12.mania.protocol.n3 harness=u12_mania_protocol_n3 props=C15,C02 tier=quick kind=bounded
+//@ obl: id=U12.mania.protocol.n3 harness=u12_mania_protocol_n3 props=C15,C02,C03 tier=quick kind=bounded
 //@ fns: ManiaGradualDifficulty::next, ManiaGradualDifficulty::nth, ManiaGradualDifficulty::len, ManiaGradualDifficulty::size_hint
 //@ bound: bounded: N = 3; idx, k all usize
 //@ clause: as U12.mania.protocol.n0
 h!(u12_mania_protocol_n3, step_protocol, 3);
-//@ obl: id=U12.mania.protocol.n4 harness=u12_mania_protocol_n4 props=C15,C02 tier=thorough kind=bounded budget=3000
+//@ obl: id=U12.mania.protocol.n4 harness=u12_mania_protocol_n4 props=C15,C02,C03 tier=thorough kind=bounded budget=3000
 //@ fns: ManiaGradualDifficulty::next, ManiaGradualDifficulty::nth, ManiaGradualDifficulty::len, ManiaGradualDifficulty::size_hint
 //@ bound: bounded: N = 4; idx, k all usize
 //@ clause: as U12.mania.protocol.n0
@@ -343,7 +343,7 @@ fn u12_mania_base_case() {
     base_case(3);
 }
 
-//@ obl: id=U12.mania.protocol.limited harness=u12_mania_protocol_limited props=C15,C02 tier=quick kind=bounded
+//@ obl: id=U12.mania.protocol.limited harness=u12_mania_protocol_limited props=C15,C02,C03 tier=quick kind=bounded
 //@ fns: ManiaGradualDifficulty::next, ManiaGradualDifficulty::nth, ManiaGradualDifficulty::len, ManiaGradualDifficulty::size_hint
 //@ bound: bounded: calculator created with a passed_objects limit: map of 3 objects of which 2 are yielded; idx, k all usize
 //@ clause: as U12.mania.protocol.n0 for a limited calculator: len()/size_hint() count the values that will actually be produced (the difficulty objects), not the objects of the whole map
